@@ -325,6 +325,44 @@ func setExpectedRule(P *Program, R *Report) {
 			{"Cr", is(revP + ".Cr"), "commitment"}, {"Cu", is(revP + ".Cu"), "commitment"}, {"Nu", is(revP + ".Nu"), "accumulator"},
 			{"challenge", is("arg#3"), "challenge"}, {"responses", contains(".ProofResult("), "all responses through the lookup"},
 		})
+		// the proof's own Cr, Cu, Nu are hashed as they are (not a reduced or otherwise recomputed value: the prover
+		// hashed the integers it sent), and they are the bases of the relations
+		okVerbatim := false
+		gotV := ""
+		allInstrs(cf, func(i ssa.Instruction) {
+			c, ok := i.(*ssa.Call)
+			if !ok || !isCallTo(c, "builtin:append") {
+				return
+			}
+			if tail, okT := seqTail(c.Call.Args[1], 0, map[ssa.Value]bool{}); okT && len(tail) == 3 {
+				gotV = seqString(tail)
+				okVerbatim = tail[0].D == revP+".Cr" && tail[1].D == revP+".Cu" && tail[2].D == revP+".Nu" &&
+					tail[0].Kind == "elem" && tail[1].Kind == "elem" && tail[2].Kind == "elem"
+				for _, e := range tail {
+					if _, isLoad := e.V.(*ssa.UnOp); !isLoad {
+						okVerbatim = false // a computed value (e.g. new(big.Int).Mod(proof.Cr, N)) has the field's name but is not the field
+					}
+				}
+			}
+		})
+		R.decide(rule, FuncKey(cf)+":verbatim", "the values Cr, Cu, Nu carried by the proof are appended to the hashed list unchanged", okVerbatim, "got "+gotV, P.Pos(cf.Pos()))
+		okBases := false
+		for f, st := range litFieldStores(cf, "new:revocation.ProofCommit") {
+			_ = f
+			_ = st
+		}
+		fs := litFieldStores(cf, "new:revocation.ProofCommit")
+		if len(fs) == 0 {
+			fs = litFieldStores(cf, "new:revocation.proofCommit")
+		}
+		if fs["cr"] != nil && fs["cu"] != nil && fs["nu"] != nil {
+			isField := func(st *ssa.Store, d string) bool {
+				_, isLoad := st.Val.(*ssa.UnOp)
+				return isLoad && desc(st.Val) == d
+			}
+			okBases = isField(fs["cr"], revP+".Cr") && isField(fs["cu"], revP+".Cu") && isField(fs["nu"], revP+".Nu")
+		}
+		R.decide(rule, FuncKey(cf)+":bases", "the relations are reconstructed over the proof's own Cr, Cu, Nu", okBases, "", P.Pos(cf.Pos()))
 		// the three relations in order cr, nu, one
 		var order []string
 		for _, c := range callsIn(cf) {
